@@ -30,6 +30,7 @@ var scConc = []map[string]string{
 	{},
 	{},
 	{"aa": "äé", "bb": "ßб", "xx": "日本", "cc": "çç"},
+	{},
 }
 
 func scTok(variant int, t string) string {
@@ -40,6 +41,9 @@ func scTok(variant int, t string) string {
 }
 
 func scJoin(variant int, toks []string, sep string) string {
+	if variant == 3 {
+		sep = ""
+	}
 	out := make([]string, len(toks))
 	for i, t := range toks {
 		out[i] = scTok(variant, t)
@@ -183,6 +187,9 @@ func TestVerifSCReplay(t *testing.T) {
 		rec.out.Emit(map[string]interface{}{"ev": "begin", "i": n, "vec": json.RawMessage(raw)})
 		rec.out.Flush()
 		variant := n % 3
+		if os.Getenv("VERIF_CONCAT") != "" {
+			variant = 3 // character alphabet: tokens are single characters (blank included), simply concatenated
+		}
 		thr := []float64{DefaultConfidenceThreshold, 1.0, 0.5}[(n/3)%3] // a verbatim copy scores exactly 1.0: it passes every threshold
 		var c *Classifier
 		sep := " "
@@ -202,7 +209,7 @@ func TestVerifSCReplay(t *testing.T) {
 		var plants []map[string]interface{}
 		for _, p := range v.P {
 			off := len(scJoin(variant, v.U[:p.At], " "))
-			if p.At > 0 {
+			if p.At > 0 && variant != 3 {
 				off++
 			}
 			ext := len(scJoin(variant, v.U[p.At:p.At+p.N], " "))
@@ -216,6 +223,9 @@ func TestVerifSCReplay(t *testing.T) {
 		late := "yy zz yy"
 		rec.add(c, cid, "late", late)
 		u2 := scJoin(variant, v.U, " ") + " xx " + late
+		if variant == 3 {
+			u2 = scJoin(variant, v.U, " ") + "-xx " + late // a context character that is not a blank: the old copies stay the only ones
+		}
 		p2 := append([]map[string]interface{}(nil), plants...)
 		p2 = append(p2, map[string]interface{}{"name": "late", "off": len(scJoin(variant, v.U, " ")) + 4, "ext": len(late)})
 		rec.mm(c, cid, u2, p2, "")
@@ -261,6 +271,19 @@ func TestVerifSCTrace(t *testing.T) {
 		if bare := rng.Intn(2) == 0; bare && nvals == 1 {
 			vals[0] = strings.TrimSuffix(vals[0], " uniqa") // a single value needs no marker
 		}
+		// any string is a known value: blanks at its edges belong to it; and a copy is a copy wherever it starts
+		// (glued: no blank between the context and the copy, so the copy begins and ends inside tokens of the unknown)
+		edge, glue := rng.Intn(8), rng.Intn(6) == 0
+		switch edge {
+		case 0:
+			vals[0] += " "
+		case 1:
+			vals[0] = " " + vals[0]
+		case 2:
+			vals[0] += "\n"
+		case 3:
+			vals[0] = "  " + vals[0] + " \t"
+		}
 		flatten := rng.Intn(2) == 0
 		thr := []float64{0.5, 0.8, 0.95, 1.0}[rng.Intn(4)]
 		ncopies := 1 + rng.Intn(3)
@@ -298,7 +321,7 @@ func TestVerifSCTrace(t *testing.T) {
 		var plants []map[string]interface{}
 		pi := 0
 		for i, p := range parts {
-			if i > 0 {
+			if i > 0 && !(glue && (p == "\x00PLANT" || parts[i-1] == "\x00PLANT")) {
 				sb.WriteByte(' ')
 			}
 			if p == "\x00PLANT" {
@@ -310,7 +333,31 @@ func TestVerifSCTrace(t *testing.T) {
 				sb.WriteString(p)
 			}
 		}
-		rec.mm(c, cid, sb.String(), plants, "")
+		// offsets refer to the normalised unknown: where normalisation changes the assembled text (a blank at the edge of a
+		// value next to the separating blank collapses under FlattenWhitespace) the copies are located again, in order;
+		// copies that came to share a byte are overlapping copies, outside the statement: no expectation then
+		relocate := func(u string, pl []map[string]interface{}, texts []string) []map[string]interface{} {
+			nu := c.normalize(u)
+			if nu == u {
+				return pl
+			}
+			cur := 0
+			out := []map[string]interface{}{}
+			for i, p := range pl {
+				j := strings.Index(nu[cur:], texts[i])
+				if j < 0 {
+					return nil
+				}
+				out = append(out, map[string]interface{}{"name": p["name"], "off": cur + j, "ext": len(texts[i])})
+				cur += j + len(texts[i])
+			}
+			return out
+		}
+		var ptexts []string
+		for _, pi := range plantIdx {
+			ptexts = append(ptexts, c.normalize(vals[pi]))
+		}
+		rec.mm(c, cid, sb.String(), relocate(sb.String(), plants, ptexts), "")
 		for k, v := range vals {
 			rec.nm(c, cid, v, []string{fmt.Sprintf("k%d", k+1)}, "")
 		}
@@ -324,7 +371,7 @@ func TestVerifSCTrace(t *testing.T) {
 		rec.add(c, cid, "klate", lateVal)
 		lp := append([]map[string]interface{}(nil), plants...)
 		lp = append(lp, map[string]interface{}{"name": "klate", "off": sb.Len() + 1, "ext": len(c.normalize(lateVal))})
-		rec.mm(c, cid, sb.String()+" "+c.normalize(lateVal), lp, "")
+		rec.mm(c, cid, sb.String()+" "+c.normalize(lateVal), relocate(sb.String()+" "+c.normalize(lateVal), lp, append(append([]string(nil), ptexts...), c.normalize(lateVal))), "")
 		// arbitrary unknowns: confidences and bounds only
 		rec.mm(c, cid, strings.Join(parts, " ")+" "+vals[0][:len(vals[0])/2], nil, "")
 		rec.nm(c, cid, vals[0][:len(vals[0])*3/4]+" zzqx", nil, "")
